@@ -178,6 +178,23 @@ class XMLWriter:
                 cur.append(ele)
             else:
                 if isinstance(val, list):
+                    # The reader removes surrounding white space from every text. A
+                    # child with a blank name would be renamed after its id on load,
+                    # and of two children whose names differ in surrounding white
+                    # space only the second one would be refused: such a document
+                    # cannot be loaded again as it is, so refuse to write it.
+                    names = set()
+                    for curr_val in val:
+                        name = getattr(curr_val, "name", None)
+                        if not isinstance(name, str):
+                            continue
+                        if not name.strip() or name.strip() in names:
+                            msg = "%s '%s': the name is blank or only differs in white " \
+                                  "space from the name of a sibling and cannot be saved" \
+                                  % (curr_val.format().name.capitalize(), name)
+                            raise ParserException(msg)
+                        names.add(name.strip())
+
                     for curr_val in val:
                         if curr_val is None:
                             continue
